@@ -9,6 +9,7 @@ CHECKS = {
  "C02": ("exploration", "every set (size 1-2, plus unit constraints) of cardinality / PB constructor calls over 2-3 variables with weights in [-2..2] and every degree, and decreasing-coefficient constraints under every partial unit assignment, x heuristic choice list: verdict and model against integer arithmetic on the constraints as written", "§4 C02", EXPL),
  "C05": ("exploration", "problems (CNF families incl. declared-but-unused variables and the empty problem, cardinality/PB sets) x {CountModels, Enumerate with/without channel, each also after a Solve} x heuristic choice list (<=1 deviation): count and delivered model multiset against the truth-table model set, channel closed", "§4 C05", EXPL),
  "C09": ("exploration", "all histories over {Solve, AppendClause(c)} with 1 appended constraint from the full alphabet (clauses with repeats/tautologies/fresh variable, NewCardClause, NewPBClause), 2 from a reduced alphabet under every Solve placement, 3 short clauses, on every small base problem, x heuristic choice list (<=1 deviation): every Solve against the truth table of the conjunction so far; Unsat sticky", "§4 C09", EXPL),
+ "C10": ("exploration", "every sequence of <=3 rounds of Assume(list)+Solve with every list of <=2 literals (empty, repeated, contradictory) on every small base problem (with/without units, parse-time facts, parse-time Unsat) x heuristic choice list (<=1 deviation): every round against the truth table of base AND that round's assumptions", "§4 C10", EXPL),
  "C06": ("exploration", "same space as C01 with certificate generation on: every certificate replayed by an independent RUP checker, every line checked for implication by truth table, differential against the uncertified twin run", "§4 C06", EXPL),
 }
 NOT_YET = "check under construction in this session (DESIGN.md §7 build order); not claimed until it runs quiet on the unchanged tree"
